@@ -9,14 +9,17 @@ use std::path::{Path, PathBuf};
 use std::sync::Arc;
 use std::time::Duration;
 
+pub mod c01n;
 pub mod c03;
 pub mod c04;
 pub mod c06n;
 pub mod c07s;
+pub mod c09n;
 pub mod c10c;
 pub mod c11;
 pub mod c12;
 pub mod c15;
+pub mod c16n;
 pub mod c17;
 pub mod fake;
 
